@@ -24,6 +24,7 @@ def ops_for(rng, sectors, extra, regions, full, nseq=25):
     grid = [(o, n) for o in pts for n in lens]
     if not full:
         grid = rng.sample(grid, min(len(grid), 60))
+    rng.shuffle(grid)      # positional reads go backwards as well as forwards
     for o, n in grid:
         ops.append({"op": "readat", "off": o, "n": n})
     for _ in range(nseq):
@@ -100,16 +101,16 @@ def run(tier, seed, replay=None):
         # 3k3y views: masking of [0xF70, 0x1070) over the decrypting view and over an already decrypted image
         for wrap, kind in (("over-enc", "3k3y-enc"), ("over-raw", "3k3y-dec")):
             for clear in (False, True):
-                regions = [[0, 3], [5, 7], [9, 10]]
-                c = {"name": "3k3y-%s-%s" % (wrap, clear), "spec": {"kind": kind, "key": rand_key(rng), "regions": regions, "sectors": 10, "extraLen": 0},
-                     "clear": clear and wrap == "over-enc", "wrap3k3y": wrap, "cuts": [8 + 8 * len(regions), 0xF70, 0x1070], "cut": []}
-                ops = []
-                for o in [0xF6F, 0xF70, 0xF71, 0xF80, 0x106F, 0x1070, 0x1071, 0x800, 0x1000, 0]:
-                    for n in [1, 16, 255, 256, 257, 2048, 5000]:
-                        ops.append({"op": "readat", "off": o, "n": n})
-                        ops += [{"op": "seek", "off": o, "whence": 0}, {"op": "read", "n": n}]
-                c["ops"] = ops
-                cases.append(c)
+                for regions in ([[0, 3], [5, 7], [9, 10]], [[0, 2], [3, 7], [9, 10]]):    # second: the tail of the 3k3y area lies in an encrypted sector
+                    c = {"name": "3k3y-%s-%s-%d" % (wrap, clear, regions[0][1]), "spec": {"kind": kind, "key": rand_key(rng), "regions": regions, "sectors": 10, "extraLen": 0},
+                         "clear": clear and wrap == "over-enc", "wrap3k3y": wrap, "cuts": [8 + 8 * len(regions), 0xF70, 0x1070], "cut": []}
+                    ops = []
+                    for o in [0xF6F, 0xF70, 0xF71, 0xF80, 0x106F, 0x1070, 0x1071, 0x800, 0x1000, 0]:
+                        for n in [1, 16, 255, 256, 257, 2048, 5000]:
+                            ops.append({"op": "readat", "off": o, "n": n})
+                            ops += [{"op": "seek", "off": o, "whence": 0}, {"op": "read", "n": n}]
+                    c["ops"] = ops
+                    cases.append(c)
         srv.run_and_validate(ctx, cases, rep, module=mod, cfg=cfg, max_rejections=16)
         rep.cov["rule"] = ("region tables: TLC-enumerated valid and invalid tables (<= 3 regions over 6 sectors, sampled), 255-region, "
                            "regions from sector 1 / to the last sector / beyond the file / adjacent, malformed counts; random keys; "
